@@ -17,9 +17,13 @@ type RestPatternNode struct {
 }
 
 func (n *RestPatternNode) splice(loc *position.Location, args *[]Node, unquote bool) Node {
+	var ident IdentifierNode
+	if n.Identifier != nil {
+		ident = n.Identifier.splice(loc, args, unquote).(IdentifierNode)
+	}
 	return &RestPatternNode{
 		NodeBase:   NodeBase{loc: position.SpliceLocation(loc, n.loc, unquote)},
-		Identifier: n.Identifier.splice(loc, args, unquote).(IdentifierNode),
+		Identifier: ident,
 	}
 }
 
@@ -35,7 +39,7 @@ func (n *RestPatternNode) traverse(parent Node, enter func(node, parent Node) Tr
 		return leave(n, parent)
 	}
 
-	if n.Identifier.traverse(n, enter, leave) == TraverseBreak {
+	if n.Identifier != nil && n.Identifier.traverse(n, enter, leave) == TraverseBreak {
 		return TraverseBreak
 	}
 
@@ -48,6 +52,10 @@ func (n *RestPatternNode) Equal(other value.Value) bool {
 		return false
 	}
 
+	if n.Identifier == nil || o.Identifier == nil {
+		return n.Identifier == nil && o.Identifier == nil && n.loc.Equal(o.loc)
+	}
+
 	return n.Identifier.Equal(value.Ref(o.Identifier)) &&
 		n.loc.Equal(o.loc)
 }
@@ -56,7 +64,9 @@ func (n *RestPatternNode) String() string {
 	var buff strings.Builder
 
 	buff.WriteRune('*')
-	buff.WriteString(n.Identifier.String())
+	if n.Identifier != nil {
+		buff.WriteString(n.Identifier.String())
+	}
 
 	return buff.String()
 }
@@ -87,7 +97,11 @@ func (n *RestPatternNode) Inspect() string {
 	fmt.Fprintf(&buff, "Std::Elk::AST::RestPatternNode{\n  location: %s", (*value.Location)(n.loc).Inspect())
 
 	buff.WriteString(",\n  identifier: ")
-	indent.IndentStringFromSecondLine(&buff, n.Identifier.Inspect(), 1)
+	if n.Identifier != nil {
+		indent.IndentStringFromSecondLine(&buff, n.Identifier.Inspect(), 1)
+	} else {
+		buff.WriteString("nil")
+	}
 
 	buff.WriteString("\n}")
 
